@@ -38,3 +38,45 @@ func H_C12_sync() {
 	}
 	vReach("end")
 }
+
+//verif:witness H_C12_async end
+//verif:bound C12 all async logger (capacity 1..2, 3 policies): two raw writes of arbitrary bytes from one buffer that the caller overwrites after each Write returns and before the worker runs
+//verif:engine-only H_C12_async
+
+func H_C12_async() {
+	vOpt("preempt", 1)
+	capacity := 1 + vChoose("cap", 2)
+	policy := vChoose("policy", 3)
+	vOpt("chancap", capacity)
+	app := &vRecAppender{}
+	l := &AsyncLogger{LoggerBase: LoggerBase{Name: "a", Level: LevelRange{MinLevel: NoneLevel, MaxLevel: MaxLevel}}, BufferSize: 100, BufferFullPolicy: BufferFullPolicy(policy)}
+	lv := LevelRange{MinLevel: NoneLevel, MaxLevel: MaxLevel}
+	if vChoose("bounded", 2) == 1 {
+		lv = LevelRange{MinLevel: Level{code: vInt32("min"), name: "LO"}, MaxLevel: Level{code: vInt32("max"), name: "HI"}}
+	}
+	l.AppenderRefs.AppenderRefs = []*AppenderRef{{Appender: app, Level: lv}}
+	if err := l.Start(); err != nil {
+		panic(err)
+	}
+	h := &LoggerWrapper{name: "a", logger: l}
+	n := 1 + vChoose("n", 2)
+	buf := vBytes("p", n)
+	orig1 := append([]byte(nil), buf...)
+	h.Write(buf)
+	// the caller recycles its buffer for the next payload
+	for i := range buf {
+		buf[i] ^= 0xFF
+	}
+	orig2 := append([]byte(nil), buf...)
+	h.Write(buf)
+	for i := range buf {
+		buf[i] = 0
+	}
+	l.Stop()
+	discarded := int(l.GetDiscardCounter())
+	vAssert(app.writes+discarded == 2, "each-write-delivered-or-counted")
+	if discarded == 0 && app.writes == 2 {
+		vAssert(vBytesEqual(app.raw[0], orig1) && vBytesEqual(app.raw[1], orig2), "delivered-bytes-are-those-present-at-the-call")
+	}
+	vReach("end")
+}
